@@ -81,7 +81,7 @@ def main():
         }],
         "checks": checks,
         "not_applicable": na,
-        "notes": "Every check is `bin/check <id> <tier>`: it rebuilds sim/ against /repo's working tree with hooks on, runs a fixed number of seeded runs (VERIF_SEED, default 1), writes evidence/<id>.json, and on a violation minimises it and writes replays/<id>-<world>-<seed>.json. known-findings.txt lists recorded and fixed findings. Every run executes on its own fresh OS thread inside its own arena (DESIGN 3.2a).",
+        "notes": "Every check is `bin/check <id> <tier>`: it rebuilds sim/ against /repo's working tree with hooks on, runs a fixed number of seeded runs (VERIF_SEED, default 1), writes evidence/<id>.json, and on a violation minimises it and writes replays/<id>-<world>-<seed>.json. known-findings.txt lists recorded and fixed findings. Every run executes on its own fresh OS thread inside its own arena (DESIGN 3.2a); one run in four starts with earlier work on that thread (3.2b); the ffi world's lifetime runs use the allocator's address re-use mode (3.2c).",
     }
     json.dump(m, open(os.path.join(ROOT, "MANIFEST.json"), "w"), indent=1)
     print("MANIFEST.json:", len(checks), "checks,", len(na), "not applicable/pending")
